@@ -18,6 +18,7 @@ import (
 	"runtime"
 	"strings"
 	"time"
+	"unsafe"
 
 	"github.com/bytedance/sonic"
 
@@ -380,6 +381,19 @@ func bindHandle(in []byte) []byte {
 		// sonic, two entry points
 		for ep := 0; ep < 2; ep++ {
 			pg := oldV()
+			// identity: an interface{} destination that holds a non-nil pointer is decoded INTO the pointee - the caller's own
+			// pointer must see the value (decided only when encoding/json keeps the pointer as well)
+			var heldBefore, stdHeld unsafe.Pointer
+			if sstr(T["k"]) == "ifp" && oldName == "pre" {
+				heldBefore = heldPointer(pg.Elem())
+				if haveStd && errS == nil {
+					ps2 := oldV()
+					b0 := heldPointer(ps2.Elem())
+					if json.Unmarshal([]byte(text), ps2.Interface()) == nil && heldPointer(ps2.Elem()) == b0 {
+						stdHeld = b0
+					}
+				}
+			}
 			var errX error
 			panicked := ""
 			func() {
@@ -411,6 +425,8 @@ func bindHandle(in []byte) []byte {
 				res.Bad = append(res.Bad, mk("valid_rejected", text, showValue(want), name+": "+firstLine(errX.Error())))
 			case !hard && !reflect.DeepEqual(pg.Elem().Interface(), want.Interface()):
 				res.Bad = append(res.Bad, mk("wrong_value", text, showValue(want), name+": "+got))
+			case !hard && stdHeld != nil && heldPointer(pg.Elem()) != heldBefore:
+				res.Bad = append(res.Bad, mk("pointee_replaced", text, "the value decoded into the pointer the interface held", name+": the interface holds another pointer, value "+got))
 			}
 			if p := errWF(errX, len(text)); p != "" {
 				res.Bad = append(res.Bad, mk("error_not_wellformed", text, "usable error", name+": "+p))
@@ -428,6 +444,14 @@ func bindHandle(in []byte) []byte {
 	res.DG = od.sum
 	out, _ := json.Marshal(res)
 	return out
+}
+
+// heldPointer: the pointer an interface value holds (nil when it holds no pointer)
+func heldPointer(v reflect.Value) unsafe.Pointer {
+	if v.Kind() != reflect.Interface || v.IsNil() || v.Elem().Kind() != reflect.Ptr {
+		return nil
+	}
+	return v.Elem().UnsafePointer()
 }
 
 var buildWS = 0
